@@ -100,8 +100,11 @@ def classify(run, lmap, fns_by_key):
         body_level = not (label and part in ("ensures", "theorem"))
         if body_level:
             props |= set(safety)
-        if not props:
-            # failure in spec/shim/lemma text or in generated code without a tag: every claimed property rests on it
+        if not props and key and key in fns_by_key:
+            # body-level failure in a function without a safety tag: it belongs to the properties that function's own contract names
+            for l in fns_by_key[key].get("ens_labels", []): props |= set(label_props(l))
+        if not props and not (key and key in fns_by_key):
+            # failure in spec/shim/lemma text (not in repo code): every claimed property rests on it
             props |= set(CONFIG["claimed"])
         name = label if (label and part in ("ensures", "theorem")) else None
         if name is None:
@@ -254,6 +257,9 @@ def main(argv):
             print("UNDECIDED: canary `ensures false` was PROVED - assumed contracts are inconsistent"); return 2
         cone = call_cone(fns_by_key)
         for f in fails:
+            # direct attribution = the obligation's own label / the function's safety tag; cone attribution (the function is only
+            # reachable from functions carrying the property) is weaker: it needs a concrete witness before it is reported
+            f["props_direct"] = sorted(f["props"])
             if f["fn"]:
                 f["props"] = sorted(set(f["props"]) | set(p for p in PROP_IDS if f["fn"] in cone[p]))
         runs.append(r); base = fails
@@ -288,7 +294,7 @@ def main(argv):
         fails = [f for f in base if pid in f["props"]]
         obls = per_prop_obl.get(pid, [])
         # functions outside the verifier's reach (stubbed) that carry obligations of this property
-        out_of_reach = []
+        out_of_reach = []; out_of_reach_cone = []
         for k in stub:
             f = fns_by_key.get(k)
             if not f: continue
@@ -300,7 +306,8 @@ def main(argv):
                         for l, _ in fs.requires + fs.ensures: ps |= set(label_props(l))
             for l in f.get("labels", []): ps |= set(label_props(l))
             if not f.get("labels") and not f.get("safety"): ps |= set(SHARED)
-            if pid in ps or k in cone.get(pid, ()): out_of_reach.append((k, stub_reason.get(k, "")))
+            if pid in ps: out_of_reach.append((k, stub_reason.get(k, "")))
+            elif k in cone.get(pid, ()): out_of_reach_cone.append((k, stub_reason.get(k, "")))
         kani_info = None
         if pid in KANI_PROPS:
             touched = any(k.split("|")[0].startswith(KANI_FILES) for k in fns_by_key if baseline and baseline.get(k) != fns_by_key[k]["body_hash"])
@@ -327,6 +334,7 @@ def main(argv):
         # does a refutation rest on dropped proof hints or on a new function without contract?  then it needs a concrete witness
         def weak(f):
             fn = fns_by_key.get(f["fn"] or "", {})
+            if pid not in f.get("props_direct", f["props"]): return "obligation of a callee that does not name this property (reached through the call cone only)"
             if fn.get("hints_dropped"): return "proof hints lost their anchors (%s)" % ", ".join(fn["hints_dropped"])
             bt = fn.get("body_text", "")
             for n in new_names:
@@ -334,7 +342,8 @@ def main(argv):
             if f["fn"] in new_fns: return "function is new and has no contract"
             return None
         replay_path = None
-        if new_fails or out_of_reach:
+        cone_only = bool(new_fails or out_of_reach_cone) and not out_of_reach and all(pid not in f.get("props_direct", f["props"]) for f in new_fails)
+        if new_fails or out_of_reach or out_of_reach_cone:
             witness = None
             if not a.no_replay:
                 witness = find_witness(pid, new_fails, a.src)
@@ -350,17 +359,25 @@ def main(argv):
                 replay_path = os.path.join(rdir, "%s.json" % pid)
                 json.dump({"property": pid,
                            "failed_obligations": [dict({k: f[k] for k in ("obligation", "kind", "fn", "label", "message", "src_file", "src_line", "text", "rendered")}, needs_witness=weak(f)) for f in new_fails],
-                           "functions_outside_verifier": [{"fn": k, "reason": why} for k, why in out_of_reach],
+                           "functions_outside_verifier": [{"fn": k, "reason": why} for k, why in out_of_reach + out_of_reach_cone],
                            "witness": witness, "verifier_cmd": runs[0]["cmd"], "unit": unit}, open(replay_path, "w"), indent=1)
                 seen_o = set()
-                for f in new_fails:
+                direct_first = sorted(new_fails, key=lambda f: 0 if pid in f.get("props_direct", f["props"]) else 1)
+                for f in direct_first:
                     if f["obligation"] in seen_o or len(seen_o) >= 10: continue
                     seen_o.add(f["obligation"])
-                    print("FAILED-OBLIGATION: property=%s %s (%s) at %s:%s" % (pid, f["obligation"], f["kind"], f["src_file"], f["src_line"]))
-                for k, why in out_of_reach:
+                    via = "" if pid in f.get("props_direct", f["props"]) else " [callee obligation, reached through the call cone]"
+                    print("FAILED-OBLIGATION: property=%s %s (%s) at %s:%s%s" % (pid, f["obligation"], f["kind"], f["src_file"], f["src_line"], via))
+                for k, why in out_of_reach + out_of_reach_cone:
                     print("OUT-OF-REACH: property=%s %s (%s) - decided by the bounded witness search only" % (pid, k, why))
                 if found: print("WITNESS: %s" % witness.get("witness"))
                 print("VIOLATION property=%s replay=%s%s" % (pid, replay_path, "" if found else " no-failing-input-found"))
+            elif cone_only:
+                # nothing this property's own obligations name has failed; the changed callee was examined by the witness search as well
+                for f in new_fails[:5]:
+                    print("NOTE: property=%s callee obligation %s failed; it is not among the obligations %s rests on%s" % (pid, f["obligation"], pid, "" if a.no_replay else " and the bounded witness search found no failing input for " + pid))
+                for k, why in out_of_reach_cone[:5]:
+                    print("NOTE: property=%s callee %s is outside the verifier's reach (%s); it carries no obligation of %s%s" % (pid, k, why, pid, "" if a.no_replay else " and the bounded witness search found no failing input for " + pid))
             else:
                 exit_undecided = True
                 for f in new_fails[:10]:
